@@ -20,7 +20,8 @@
 //
 // Don't-care cells (not judged): which error value is returned; parameter combinations the constructors
 // refuse (weak moduli, e != 65537, hash/curve mismatches); timing; what the monitoring logger sees;
-// keysets with more than one key (C05); Ed25519 inputs that separate cofactored from cofactorless
+// keysets with more than one key (C05; except section legacy-adapter, see legacy.go, where the factory adapters for
+// key types without a full primitive are driven in single- and multi-key keysets); Ed25519 inputs that separate cofactored from cofactorless
 // verification (not producible by the catalogue).
 package main
 
@@ -1697,6 +1698,8 @@ func main() {
 			"inside each execution every message length of the list is signed (Sign output checked by the independent verifier, byte-exact for deterministic schemes) "+
 			"and the mutation catalogue (all bit flips, all truncations, extensions, r/s values, DER re-encodings, wrong-length P1363, crafted RSA encodings, foreign salt lengths, "+
 			"prefix edits, LEGACY suffix confusion, other keys, modified messages) is decided by tink and by the strict reference verifier; decisions must be equal. "+
+			"Section legacy-adapter: keyset shape (single | primary at position 0..5 among 5 heterogeneous keys | forced RAW/prefix collision) x prefix type x key id for a custom key manager whose primitive is a raw stdlib Ed25519 signer/verifier "+
+			"(the factories' legacy-primitive adapters): byte-exact Sign oracle and union-of-keys Verify model over every message length 0..70 + long ones with the truncation / bit-flip / prefix / LEGACY-suffix / other-key catalogue. "+
 			"An execution is non-trivial when Signer and Verifier were built and exercised; distinct = distinct choice vectors; evaluations = tink decisions compared.",
 		[]h.Section{
 			{Name: "ecdsa", Body: ecdsaSection, Bound: -1},
@@ -1704,5 +1707,6 @@ func main() {
 			{Name: "ed25519", Body: ed25519Section, Bound: -1},
 			{Name: "rsassapkcs1", Body: rsaSection(false), Bound: -1},
 			{Name: "rsassapss", Body: rsaSection(true), Bound: -1},
+			{Name: "legacy-adapter", Body: legacyAdapterSection, Bound: -1},
 		})
 }
